@@ -936,7 +936,7 @@ func (c *hostile) malformedBlock(seed uint64, tier int) {
 	}
 	// length-targeted: every 4-byte window overwritten with a hostile length
 	for p := 0; p+4 <= len(enc) && p < 64; p++ {
-		for _, l := range []uint32{0xffffffff, 0x7fffffff, 0x80000000, 0x00ffffff, uint32(len(enc)), uint32(len(enc)) + 1} {
+		for _, l := range []uint32{0xffffffff, 0x00ffffff, uint32(len(enc)), uint32(len(enc)) + 1} {
 			d := append([]byte(nil), enc...)
 			d[p], d[p+1], d[p+2], d[p+3] = byte(l>>24), byte(l>>16), byte(l>>8), byte(l)
 			c.decode("mal-length", t, d, old, true)
@@ -1024,7 +1024,7 @@ func (c *hostile) readIntoBlock(seed uint64) {
 	}
 }
 
-func nBlocks(tier int) int { return 120 * tier }
+func nBlocks(tier int) int { return 70 * tier }
 
 // childMain: the hostile stream from (fromB, fromI) on
 func childMain(seed uint64, tier, fromB, fromI int) {
@@ -1178,7 +1178,7 @@ func main() {
 	case "total":
 		h.encodeAll(tier)
 		h.readCalls()
-		per := 6 * time.Second
+		per := 4 * time.Second
 		if tier > 1 {
 			per = 20 * time.Second
 		}
